@@ -8,6 +8,7 @@ mod c01;
 mod c03;
 mod c05;
 mod c08;
+mod c09;
 mod c12;
 mod c17;
 mod c19;
@@ -74,6 +75,7 @@ fn main() {
             "C08" => c08::run(ctx),
             "C03" => c03::run(ctx, c03::Mode::C03),
             "C16" => c03::run(ctx, c03::Mode::C16),
+            "C09" => c09::run(ctx),
             "C12" => c12::run(ctx),
             "C17" => c17::run(ctx),
             "C19" => c19::run(ctx),
